@@ -34,7 +34,7 @@ def c19_order(p1: int, p2: int, p3: int, w1: int, w2: int, n1: int, n2: int, au:
     pre: 0 <= w1 <= 2 and 0 <= w2 <= 2 and 1 <= n1 <= 3 and 1 <= n2 <= 2 and 0 <= au <= 3
     pre: rt.S.get('full', False) or rt.S.get('pace', False) or (w1 != 1 and w2 == 1 and n1 <= 2 and n2 == 1 and au <= 1)
     pre: not rt.S.get('pace', False) or (n1 == 3 and w1 >= 1 and n2 == 1 and au == 0)
-    pre: 0 <= d <= rt.S.get('dmax', 0)
+    pre: rt.S.get('dmin', 0) <= d <= rt.S.get('dmax', 0)
     post: _
     """
     S = rt.S
@@ -218,8 +218,10 @@ def plan(tier):
             sh.append({'trig': trig, 'gw': 0, 'dmax': 20, 'victim': 'newest'})
     sh.append({'trig': 'boot', 'gw': 0, 'hookcost': 0.15, 'pace': True})
     if q:
-        sh.append({'trig': 'boot', 'gw': 0.3, 'dmax': 12})
-        sh.append({'trig': 'boot', 'gw': 0, 'dmax': 12, 'victim': 'newest'})
+        # (d split in two halves per configuration: twice the parallelism, same coverage)
+        for lo, hi in ((0, 6), (7, 12)):
+            sh.append({'trig': 'boot', 'gw': 0.3, 'dmin': lo, 'dmax': hi})
+            sh.append({'trig': 'boot', 'gw': 0, 'dmin': lo, 'dmax': hi, 'victim': 'newest'})
         sh.append({'trig': 'start_all', 'gw': 0, 'dmax': 12})
     return [
         Cond('c19_order', shards=sh, budget=300 if q else 2400, twins=2,
